@@ -216,6 +216,10 @@ class Project(object):
         if not package.startswith('.'):
             return package
 
+        if not filename:
+            # the text has no file: it belongs to no package
+            raise ImportError('Not a package: {} ({})'.format(filename, package))
+
         root = filename
         for _ in range(len(package) - len(package.lstrip('.'))):
             root = os.path.dirname(root)
